@@ -122,7 +122,7 @@ def run(ctx):
     ctx.prove(extra_targets=x_hcheck.EXTRA)
     state = {}
     x_hcheck.run_histories(ctx, ctx.n(160, 5000), storage_types=("multifilesystem", "multifilesystem_nolock"), layouts=LAYOUTS,
-                           monitor=lambda w, h, o, r: frame_monitor(ctx, state, w, h, o, r), tag="c01")
+                           monitor=lambda w, h, o, r: frame_monitor(ctx, state, w, h, o, r), tag="c01", disagreement_is_violation=True)
     # bodies outside the abstract grammar (adversarial UIDs, overrides): "a replaced collection contains only the new objects"
     from vlib import x_scenarios
     x_scenarios.whole_upload_fidelity(ctx, ctx.n(80, 2000))
